@@ -1629,14 +1629,9 @@ class SQLObject(with_metaclass(declarative.DeclarativeMeta, object)):
     @classmethod
     def dropJoinTables(cls, ifExists=False, connection=None):
         conn = connection or cls._connection
-        for join in cls.sqlmeta.joins:
-            if not join:
-                continue
-            if not join.hasIntermediateTable() or \
-                    not getattr(join, 'createRelatedTable', True):
-                continue
-            if join.soClass.__name__ > join.otherClass.__name__:
-                continue
+        for join in cls._getJoinsToCreate():
+            # (the same joins createJoinTables() made a table for: the
+            # link table of a self-referential join only once)
             if ifExists and \
                not conn.tableExists(join.intermediateTable):
                 continue
